@@ -114,7 +114,10 @@ PVecName(m) ==
 PVecClauses(ln) ==
   LET R == reg[ln.reg] IN
   IF PVecName(ln.m) = "UnknownMeasure" \/ R.n = 0 THEN << <<"MalformedRecord", FALSE>> >>
-  ELSE ValueClauses(PVecName(ln.m), ln, ln.pv = PVecRef(R, ln) /\ ln.aux = 1)
+  ELSE ValueClauses(PVecName(ln.m), ln,
+          /\ ln.aux = 1
+          /\ \/ ln.pv = PVecRef(R, ln)
+             \/ (ln.m = "purify" /\ ln.pv2 = PVecRef(R, ln)))   \* either factor may carry the state
 
 \* measurement of a Pauli observable: admissible outcome, returned eigenvalue, collapsed state
 MeasClauses(ln) ==
@@ -135,7 +138,8 @@ KrausClauses(ln) ==
 
 CountsClauses(ln) ==
   LET R == reg[ln.reg] IN
-  ValueClauses("CountsSupport", ln,
+  IF ln.exc # "" /\ ln.negdiag THEN << <<"NOTE:InputRoundingRejected", FALSE>> >>
+  ELSE ValueClauses("CountsSupport", ln,
      /\ ln.tot = ln.C
      /\ \A i \in 1..Len(ln.keys) : Len(ln.keys[i]) = R.n /\ BitOK(R.G, ln.keys[i]))
 
